@@ -1,0 +1,17 @@
+// SPDX-License-Identifier: Apache-2.0
+// Copyright © 2022 Wrangle Ltd
+
+package objects
+
+// maxPrealloc caps how many elements a decoder allocates up front on the
+// strength of a count read from its input. Slices grow beyond it only as
+// elements are actually decoded, so a corrupted or hostile count cannot
+// make the decoder allocate memory out of proportion to the input.
+const maxPrealloc = 1024
+
+func preallocCap(n uint32) int {
+	if n > maxPrealloc {
+		return maxPrealloc
+	}
+	return int(n)
+}
